@@ -77,3 +77,49 @@ contract(F, 'OscBundle._parse_contents', props=('C18',),
          opts={'untracked_lists': True},
          class_modules={'OscBundle': F, 'OscMessage': F},
          note='termination = the loop variant: a negative element size would leave the index where it was')
+
+
+# ---- get_blob: size count, that many bytes, padding to a multiple of 4 -------------------------
+def get_int_traced(eng, selfv, args, kwargs, st, node):
+    outs = get_int_model(eng, selfv, args, kwargs, st, node)
+    for st1, r in outs:
+        if not isinstance(r, Raised):
+            st1.trace.append(('size', r.items[0].z))
+    return outs
+
+
+def blob_size(c):
+    s = [e for e in c.trace if e[0] == 'size']
+    return s[0][1] if len(s) == 1 else None
+
+
+def blob_post(c):
+    size = blob_size(c)
+    r = c.resultv
+    if size is None or r.k != 'tuple' or len(r.items) != 2 or r.items[0].k != 'bytes':
+        return z3.BoolVal(False)
+    pad = (-size) % 4
+    return z3.And(size >= 0,
+                  c.blen(r.items[0]) == size,                          # exactly `size` bytes of data
+                  r.items[1].z == c.start_index + 4 + size + pad,      # index moves past count, data and padding
+                  (r.items[1].z - c.start_index) % 4 == 0,             # stays 4-aligned relative to the start
+                  c.start_index + 4 + size <= c.blen(c.dgram))         # the data lies inside the datagram
+
+
+def blob_refused(c):
+    """on refusal: too short for the count, a negative count, or data running past the end"""
+    size = blob_size(c)
+    if size is None:
+        return remaining(c) < 4
+    return z3.Or(size < 0, c.start_index + 4 + size > c.blen(c.dgram))
+
+
+contract(F, 'get_blob', props=('C18', 'C06'),
+         params={'dgram': 'bytes', 'start_index': 'int'},
+         requires=lambda c: c.start_index >= 0,
+         raises={'OscTypeParseError': None},
+         ensures=[('count-data-padding:index-and-length', blob_post)],
+         on_raise=[('refused-only-when-short-negative-or-overrunning', blob_refused)],
+         policies={'get_int': get_int_traced},
+         note='get_int through its proved contract; the PADDING may lie beyond the end of the datagram '
+              '(python-osc leniency, accepted by the statement: "sized correctly" is about the writer)')
